@@ -387,7 +387,7 @@ func c17Program(run *common.Run, prog int) {
 			default:
 				nr := r.Range(0, 3)
 				for i := 0; i < nr; i++ {
-					rs.Ranges = append(rs.Ranges, c03Range(r.Intn(225)))
+					rs.Ranges = append(rs.Ranges, c03Range(r.Intn(c03NR)))
 				}
 				nk := r.Range(0, 2)
 				for i := 0; i < nk; i++ {
